@@ -14,6 +14,7 @@ import (
 	"fmt"
 	"io"
 	"path/filepath"
+	"sort"
 	"testing"
 	"time"
 
@@ -241,7 +242,7 @@ func vPersistRun(tr *vTrace, id string, salt int64, bytesN int) {
 	defer s.Close()
 	// elapsed time between save and load: move the clock origin of the saved cache back
 	// (75 s and 5000 s put the load inside the coarse wheel tick that holds the 90 s / 2 h deadlines)
-	elapsed := []time.Duration{0, 0, time.Second, 10 * time.Second, 75 * time.Second, 5 * time.Minute, 5000 * time.Second, 3 * time.Hour}[rnd.Intn(8)]
+	elapsed := []time.Duration{0, time.Second, 10 * time.Second, 10 * time.Second, 75 * time.Second, 75 * time.Second, 5 * time.Minute, 5000 * time.Second, 3 * time.Hour}[rnd.Intn(9)]
 	for tries := 0; tries < 20; tries++ {
 		now := s.timerwheel.clock.NowNano() + elapsed.Nanoseconds()
 		clash := false
@@ -284,6 +285,8 @@ func vPersistRun(tr *vTrace, id string, salt int64, bytesN int) {
 	tr.Emit(vRec{"ev": "saved", "id": id, "size": size, "state": saved, "blocks": vPBlocksRec(blocks, origin), "bytes": len(stream), "ver": int64(version)})
 	emitLoad := func(fault string, fb []vBlock, stream []byte, ver uint64, tsize int) {
 		rec, kind, s2 := vPLoad(stream, ver, tsize)
+		// "now" of the loading cache and of the saved cache's time line at the moment of the load
+		ownAtLoad, savedAtLoad := s2.timerwheel.clock.NowNano(), s.timerwheel.clock.NowNano()
 		wall := int64(1000) + s2.timerwheel.clock.NowNano()>>vPU
 		originOK := s2.timerwheel.clock.Start.UnixNano() == origin
 		rec["ev"] = "load"
@@ -337,6 +340,32 @@ func vPersistRun(tr *vTrace, id string, salt int64, bytesN int) {
 				})
 				due, _ = rec["resident"].(int)
 				tr.Emit(vRec{"ev": "reclaim", "id": id, "tsize": tsize, "loaded": due, "overdue": overdue})
+				// C03 for restored entries: move on to just after the latest saved deadline within three hours and
+				// read every key: whatever is served must not be past the deadline it was saved with
+				dls := []int64{}
+				s.RangeEntry(func(e *Entry[int, int]) {
+					if d := e.expire.Load(); d > savedAtLoad && d-savedAtLoad < int64(3*time.Hour) {
+						dls = append(dls, d)
+					}
+				})
+				sort.Slice(dls, func(i, j int) bool { return dls[i] < dls[j] })
+				// one reading 1.5 s after every cluster of saved deadlines (measured as time elapsed since the load:
+				// the loading cache's time line need not be the saved one)
+				for i, d := range dls {
+					if i+1 < len(dls) && dls[i+1]-d < 3*int64(time.Second) {
+						continue
+					}
+					if at := ownAtLoad + (d - savedAtLoad) + 1500*int64(time.Millisecond); at > clk.NowNano() {
+						tick(at)
+					}
+					later := [][]int{}
+					for k := 0; k <= 600; k++ {
+						if v, ok := s2.Get(k); ok {
+							later = append(later, []int{k, v})
+						}
+					}
+					tr.Emit(vRec{"ev": "later", "id": id, "wall": int64(1000) + (savedAtLoad+clk.NowNano()-ownAtLoad)>>vPU, "served": later})
+				}
 			}
 		}
 		s2.Close()
